@@ -172,6 +172,11 @@ func runC05Schedule(r *rng, nEvents int, script []string) (c05Case, error) {
 			if h.Term < m.Term {
 				viol = append(viol, fmt.Sprintf("node %d sent an append response for term %d with durable term %d", from, m.Term, h.Term))
 			}
+		case raftpb.MsgHeartbeatResp:
+			// only a follower answers heartbeats: its term must be durable before the answer leaves
+			if h.Term < m.Term {
+				viol = append(viol, fmt.Sprintf("node %d sent a heartbeat response for term %d with durable term %d", from, m.Term, h.Term))
+			}
 		case raftpb.MsgVote:
 			if h.Term < m.Term {
 				viol = append(viol, fmt.Sprintf("node %d asked for votes in term %d with durable term %d", from, m.Term, h.Term))
